@@ -724,10 +724,16 @@ func probeScenarios() []Scenario {
 							b.WithWait(waitVals[1])
 						}
 					}
-					if core.Choose(2) == 0 {
+					switch core.Choose(3) {
+					case 0:
 						b.WithMaxRetries(r2).WithWait(w2)
-					} else {
+					case 1:
 						b.WithWait(w2).WithMaxRetries(r2) // the wait is set while the budget is still the old one
+					default:
+						// the plain option functions applied to the node's embedded BaseNode (what a
+						// hand-written node type, or code holding only the node, would do)
+						flyt.WithMaxRetries(r2)(b.BaseNode)
+						flyt.WithWait(w2)(b.BaseNode)
 					}
 				}
 				run = func() error { _, err := flyt.Run(context.Background(), b, flyt.NewSharedStore()); return err }
@@ -751,10 +757,16 @@ func probeScenarios() []Scenario {
 							b.WithWait(waitVals[1])
 						}
 					}
-					if core.Choose(2) == 0 {
+					switch core.Choose(3) {
+					case 0:
 						b.WithMaxRetries(r2).WithWait(w2)
-					} else {
+					case 1:
 						b.WithWait(w2).WithMaxRetries(r2) // the wait is set while the budget is still the old one
+					default:
+						// the plain option functions applied to the node's embedded BaseNode (what a
+						// hand-written node type, or code holding only the node, would do)
+						flyt.WithMaxRetries(r2)(b.BaseNode)
+						flyt.WithWait(w2)(b.BaseNode)
 					}
 				}
 				run = func() error { _, err := flyt.Run(context.Background(), b, flyt.NewSharedStore()); return err }
